@@ -459,7 +459,7 @@ func (x *Exec) step(fr *Frame, st *State, in ssa.Instruction) {
 		switch b := base.(type) {
 		case SliceV:
 			x.check(st, x.site(fr, in, "index"), And(Le(IntLit(0), idx), Lt(idx, b.Len)), n.Pos())
-			fr.regs[n] = ElemPtr{Ref: b.Ref, Idx: Add(b.Off, idx), Elem: b.Elem}
+			fr.regs[n] = ElemPtr{Ref: b.Ref, Idx: SIdx(b.Off, idx), Elem: b.Elem}
 		case *Term: // pointer to array
 			at := n.X.Type().Underlying().(*types.Pointer).Elem().Underlying().(*types.Array)
 			x.check(st, x.site(fr, in, "nilderef"), Neq(b, IntLit(0)), n.Pos())
